@@ -200,13 +200,18 @@ COQ_HEAD = ("From Coq Require Import Uint63.\nFrom Coq Require Import List NArit
 
 
 def coq_bad(name, ty, check, terms, rp, what, shard=400):
-    """evaluate a boolean case check on the given terms; returns the indices that fail (None on tool failure)"""
-    bad = []
-    for si in range(0, len(terms), shard):
+    """evaluate a boolean case check on the given terms (shards compiled in parallel); returns the indices that fail
+    (None on tool failure)"""
+    from concurrent.futures import ThreadPoolExecutor
+    def one(si):
         part = terms[si:si + shard]
         body = COQ_HEAD + "Definition cases : list (%s) := [\n%s].\n" % (ty, ";\n".join(part))
         body += "Definition bad := Eval vm_compute in bad_indices (%s) 0 cases.\nPrint bad.\n" % check
-        ok, out, err = common.coq_cases("%s_%d" % (name, si // shard), body)
+        return si, common.coq_cases("%s_%d" % (name, si // shard), body)
+    with ThreadPoolExecutor(max_workers=8) as ex:
+        results = list(ex.map(one, range(0, len(terms), shard)))
+    bad = []
+    for si, (ok, out, err) in results:
         if not ok:
             rp.violation({"kind": "correspondence", "broken": what, "detail": err[-2000:]}, name + "_coq", no_input=True)
             return None
@@ -575,7 +580,7 @@ def run(tier):
 
     tick("witnesses replayed")
     # ---- 1. frame reader on byte streams (hook VerifReadMessage) vs Model/LspFrame.read_all
-    streams = gen_streams(rng, 150 if quick else 3000)
+    streams = gen_streams(rng, 400 if quick else 3000)
     p = common.vh(["lspframes"], input="".join(json.dumps({"stream": hx(s)}) + "\n" for s in streams), timeout=900)
     fr = [json.loads(l) for l in p.stdout.splitlines() if l.strip()]
     if p.returncode != 0 or len(fr) != len(streams):
@@ -594,7 +599,7 @@ def run(tier):
                           "explanation": "the frame reader panicked on this byte stream: the server dies"}, "frame_panic_%d" % frame_panics)
     if fr and model_ok:
         terms = ["(%s, [%s])" % (nl(s), "; ".join(item_term(it) for it in r["items"])) for s, r in zip(streams, fr)]
-        bad = coq_bad("c18_frames", "list N * list item", "frame_case_ok %d" % MAXLEN, terms, rp, "frame reader model vs readMessage")
+        bad = coq_bad("c18_frames", "list N * list item", "frame_case_ok %d" % MAXLEN, terms, rp, "frame reader model vs readMessage", shard=100)
         rp.obligation("correspondence: Model.LspFrame.read_all = Server.readMessage on %d byte streams" % len(terms), bad == [])
         for i in (bad or [])[:3]:
             rp.violation({"kind": "correspondence", "family": "frames", "stream_hex": hx(streams[i]), "items": fr[i]["items"],
@@ -604,7 +609,7 @@ def run(tier):
 
     tick("frames done")
     # ---- 2. DocumentManager histories vs Model/LspDoc.dm_run and the python oracle
-    hists = gen_histories(rng, 120 if quick else 2500)
+    hists = gen_histories(rng, 300 if quick else 2500)
     p = common.vh(["lspdoc"], input="".join(json.dumps({"ops": h}) + "\n" for h in hists), timeout=900)
     hr = [json.loads(l) for l in p.stdout.splitlines() if l.strip()]
     if p.returncode != 0 or len(hr) != len(hists):
@@ -623,7 +628,7 @@ def run(tier):
                           "explanation": "DocumentManager history: " + prob["what"]}, "dm_history_%d" % nviol)
         hist_terms.append(history_term(h, r["steps"]))
     if hr and model_ok:
-        bad = coq_bad("c18_hist", "list (dm_op * option (option (Z * list N)))", "hist_ok []", hist_terms, rp, "document mirror model vs DocumentManager", shard=300)
+        bad = coq_bad("c18_hist", "list (dm_op * option (option (Z * list N)))", "hist_ok []", hist_terms, rp, "document mirror model vs DocumentManager", shard=60 if quick else 300)
         rp.obligation("correspondence: Model.LspDoc.dm_run = DocumentManager on %d edit histories (ASCII, non-ASCII and ill-formed UTF-8)" % len(hist_terms), bad == [])
         for i in (bad or [])[:3]:
             rp.violation({"kind": "correspondence", "family": "dm_history", "ops": hists[i], "steps": hr[i]["steps"],
@@ -686,7 +691,7 @@ def run(tier):
     tick("sweep done")
     # ---- 4. whole conversations on a real Server
     convs = []
-    for i in range(40 if quick else 600):
+    for i in range(90 if quick else 600):
         convs.append(gen_conversation(rng, rng.randint(4, 40 if quick else 90)) + ({"freeze": False, "reset_at": []},))
     for i in range(1 if quick else 12):
         # beyond the limiter window, deterministically (frozen window, forced restarts)
@@ -725,12 +730,19 @@ def run(tier):
     for pr in iprobs:
         if matches_known(pr, known_sigs):
             continue
-        rp.violation({"kind": "oracle", "family": "stream", "frames": pr.get("frames", []), "uris": [], "problem": pr, "conv": [],
+        rp.violation({"kind": "oracle", "family": "probe", "probe": "id", "frames": pr.get("frames", []), "problem": pr,
                       "explanation": "the response does not carry the request's id: %s" % pr["what"]}, "id_fidelity_%d" % len(rp.violations))
+    if not quick:
+        oprobs, oframes, ou = oversize_probe()
+        evals += 4
+        count("oversize_probe", 1)
+        for pr in oprobs[:2]:
+            rp.violation({"kind": "oracle", "family": "probe", "probe": "oversize", "frames": oframes, "uris": [ou], "problem": pr,
+                          "explanation": pr["what"]}, "oversize_%s" % pr["class"])
     tick("conversations run and judged")
     # streams with broken framing between well-formed messages
     bconvs = []
-    for i in range(15 if quick else 200):
+    for i in range(40 if quick else 200):
         c, uris = gen_conversation(rng, rng.randint(3, 12))
         bconvs.append((c, uris, corrupt_framing(rng, c)))
     inp = "".join(json.dumps(dict(frames=[hx(f) for f in frames], uris=uris)) + "\n" for c, uris, frames in bconvs)
@@ -752,7 +764,7 @@ def run(tier):
             serve_terms.append(term); serve_src.append((c, uris, {"frames": frames}, res))
     tick("streams run and judged")
     if serve_terms and model_ok:
-        bad = coq_bad("c18_serve", "serve_case", "serve_case_ok %d %d" % (MAXLEN, MAXDOC), serve_terms, rp, "message loop model vs Server.Run", shard=40)
+        bad = coq_bad("c18_serve", "serve_case", "serve_case_ok %d %d" % (MAXLEN, MAXDOC), serve_terms, rp, "message loop model vs Server.Run", shard=8 if quick else 40)
         rp.obligation("correspondence: frame reader + message loop + mirror models = real Server on %d conversations (ids, codes, published versions, mirror after each message, survival)" % len(serve_terms), bad == [])
         for i in (bad or [])[:3]:
             c, uris, opt, res = serve_src[i]
@@ -915,9 +927,9 @@ def history_term(ops, steps):
 
 def sweep_plan(tier):
     if tier == "quick":
-        # documents <= 3 lines x <= 4 characters: every 9973rd document, all ranges; plus all documents <= 2 lines x <= 2 characters
-        return [dict(max_lines=3, max_chars=4, stride=2999), dict(max_lines=2, max_chars=2, stride=1)]
-    return [dict(max_lines=3, max_chars=3, stride=1), dict(max_lines=2, max_chars=4, stride=1), dict(max_lines=3, max_chars=4, stride=37)]
+        # documents <= 3 lines x <= 4 characters: every 997th document, all ranges; plus all documents <= 2 lines x <= 2 characters
+        return [dict(max_lines=3, max_chars=4, stride=997), dict(max_lines=2, max_chars=2, stride=1)]
+    return [dict(max_lines=3, max_chars=3, stride=1), dict(max_lines=2, max_chars=4, stride=1), dict(max_lines=3, max_chars=4, stride=13)]
 
 
 # --------------------------------------------------------------------------------------------------
@@ -1218,6 +1230,49 @@ def check_stream(c, uris, frames, res, lens_seen):
 
 
 # --------------------------------------------------------------------------------------------------
+# oversize probe (thorough): a document above MaxDocumentSize is still mirrored, edited under the protocol rule
+# and never validated; the server survives (judged by the oracles only: the text is too large for a Coq case)
+
+def oversize_probe():
+    u = "file:///big.sql"
+    line = "SELECT 'é😀' FROM t; -- padding padding padding padding padding padding\n"
+    text = line * (MAXDOC // len(line.encode()) + 2)
+    msgs = [
+        {"jsonrpc": "2.0", "method": "textDocument/didOpen", "params": {"textDocument": {"uri": u, "languageId": "sql", "version": 1, "text": text}}},
+        {"jsonrpc": "2.0", "method": "textDocument/didChange", "params": {"textDocument": {"uri": u, "version": 2}, "contentChanges": [
+            {"range": {"start": {"line": 1, "character": 10}, "end": {"line": 1, "character": 12}}, "text": "X"}]}},
+        {"jsonrpc": "2.0", "id": 1, "method": "textDocument/documentSymbol", "params": {"textDocument": {"uri": u}}},
+        {"jsonrpc": "2.0", "method": "textDocument/didChange", "params": {"textDocument": {"uri": u, "version": 3}, "contentChanges": [
+            {"range": {"start": {"line": 1, "character": 0}, "end": {"line": 2 ** 40, "character": 0}}, "text": ""}]}},
+    ]
+    frames = [frame(json.dumps(m, ensure_ascii=False)) for m in msgs]
+    p = common.vh(["lspserve"], input=json.dumps({"frames": [hx(f) for f in frames], "uris": [u]}) + "\n", timeout=600)
+    r = json.loads(p.stdout.splitlines()[0])
+    probs = []
+    if r.get("panic") or not r.get("returned"):
+        probs.append({"class": "died", "what": "oversize document: server died: %s" % r.get("panic")})
+    want1 = oracle_apply(text, [1, 10, 1, 12], "X")[0]
+    want2 = oracle_apply(want1, [1, 0, 2 ** 40, 0], "")[0]
+    exp = {1: (1, text), 2: (2, want1), 3: (2, want1), 4: (3, want2)}
+    for sn in r["snapshots"]:
+        d = sn["delivered"]
+        msgs_out, err = parse_out(bytes.fromhex(sn["out"]))
+        if err:
+            probs.append({"class": "frame", "what": "oversize document: " + err})
+        if d in exp:
+            o = sn["docs"].get(u)
+            if o is None or o["version"] != exp[d][0] or bytes.fromhex(o["hex"]) != exp[d][1].encode():
+                probs.append({"class": "mirror", "what": "oversize document: mirror after message %d is not the text under the protocol rule (version %s, %d bytes; expected version %d, %d bytes)" % (
+                    d, o and o["version"], len(o["hex"]) // 2 if o else -1, exp[d][0], len(exp[d][1].encode()))})
+        for n, j in msgs_out:
+            if d in (1, 2) and j.get("method") == "textDocument/publishDiagnostics" and (j["params"].get("diagnostics") or []):
+                probs.append({"class": "diagnostics", "what": "oversize document: diagnostics published for a document above the size limit"})
+        if d == 3 and [j.get("id") for n, j in msgs_out if "method" not in j] != [1]:
+            probs.append({"class": "response", "id": 1, "what": "oversize document: request 1 not answered exactly once"})
+    return probs, [hx(f) for f in frames], u
+
+
+# --------------------------------------------------------------------------------------------------
 # id fidelity probe: the response must carry the request's id (numbers compared by exact value)
 
 RAW_IDS = ['9007199254740993', '-9007199254740993', '18446744073709551616', '1e2', '1.5', '0.1', '-0', '4294967296', '-1',
@@ -1324,6 +1379,14 @@ def replay(path):
         prob = check_history(d["ops"], r["steps"])
         print(json.dumps(prob))
         return 1 if prob else 0
+    if fam == "probe":
+        if d.get("probe") == "oversize":
+            probs = oversize_probe()[0]
+        else:
+            known = [k for k in common.known_findings("C18") if k["status"] == "known"]
+            probs = [pr for pr in id_probe()[0] if not matches_known(pr, known)]
+        print(json.dumps(probs, ensure_ascii=False, default=str)[:4000])
+        return 1 if probs else 0
     if fam in ("conversation", "stream"):
         opt = d.get("opt") or {}
         p = common.vh(["lspserve"], input=json.dumps({"frames": d["frames"], "uris": d.get("uris", []), **{k: v for k, v in opt.items() if k in ("freeze", "reset_at")}}) + "\n")
